@@ -88,67 +88,17 @@ def d9_2(ctx):
     _segment_rule(ctx)
 
 
-@rule(P, "D9.3", "T-PARITY", floor=5)
+@rule(P, "D9.3", "T-WITNESS", floor=5)
 def d9_3(ctx):
-    """Pad parity: logical segment pads iff (1 + width) is odd (padded form); symbolic length is the unpadded byte length, data padded to even; word-count prefix."""
-    ls = _seg(ctx, "LogicalSegment")
-    fn = ls.methods["_encode"]
-    good, facts = False, {}
-    for n in walk(fn):
-        if isinstance(n, ast.If) and isinstance(n.test, ast.BoolOp) and isinstance(n.test.op, ast.And):
-            vals = n.test.values
-            if len(vals) == 2 and atom_name(vals[0]) == "padded":
-                par = vals[1]
-                if isinstance(par, ast.BinOp) and isinstance(par.op, ast.Mod) and ctx.folder.eval(par.right, ls.module) == 2:
-                    L = lin(par.left)
-                    seg = [k for k in (L.terms if L else {}) if k.startswith("len(")]
-                    pad = n.body[0] if len(n.body) == 1 else None
-                    padded_name = atom_name(pad.target) if isinstance(pad, ast.AugAssign) else None
-                    pad_val = ctx.folder.eval(pad.value, ls.module) if isinstance(pad, ast.AugAssign) else None
-                    facts = {"parity_of": repr(L), "pads": padded_name}
-                    good = L is not None and len(seg) == 2 and all(v == 1 for v in L.terms.values()) and L.const == 0 and pad_val == b"\x00" and f"len({padded_name})" in L.terms
-    rets = [r for r in walk(fn) if isinstance(r, ast.Return)]
-    order_ok = len(rets) == 1 and isinstance(rets[0].value, ast.BinOp) and isinstance(rets[0].value.op, ast.Add) and atom_name(rets[0].value.left) == facts.get("pads")
-    ctx.check(good and order_ok, ckey(ls.key + "._encode", "pad"), fn, "padded form: one 00 after the segment byte iff segment byte + value length is odd; value last", "logical segment padding is not `pad iff (len(segment byte) + len(value)) odd`, placed between segment byte and value", **facts)
-    # symbolic
-    ds = _seg(ctx, "DataSegment")
-    fn = ds.methods["_encode"]
-    lay = flatten(Layouter(ctx, ds.module, ds, fn).function(fn) or [])
-    good, facts = False, {"layout": show(lay)}
-    if len(lay) == 1 and lay[0][0] == "alt":
-        arms = [lay[0][2], lay[0][3]]
-        sym = [a for a in arms if len(a) == 4]
-        raw = [a for a in arms if len(a) == 3]
-        if sym and raw:
-            s, r = sym[0], raw[0]
-            lenvar = None
-            for n in walk(fn):
-                if isinstance(n, ast.Assign) and isinstance(n.value, ast.Call) and call_name(n.value) == "len":
-                    lenvar = (atom_name(n.targets[0]), atom_name(n.value.args[0]), n)
-            # length measured before the padding statement
-            measured_first = False
-            if lenvar:
-                pads = [n for n in walk(fn) if isinstance(n, ast.If) and isinstance(n.body[0], ast.AugAssign) and atom_name(n.body[0].target) == lenvar[1]]
-                measured_first = bool(pads) and lenvar[2].lineno < pads[0].lineno and atom_name(pads[0].test).replace(" ", "") == f"{lenvar[0]}%2"
-            good = (s[0][0] == "enc" and s[0][1] == "USINT" and s[1][0] == "lenof" and s[1][1] == "USINT" and s[3][0] == "pad" and s[3][2] == b"\x00" and measured_first
-                    and r[0][0] == "enc" and r[1][0] == "lenof" and r[2][0] == "ref")
-    ctx.check(good, ckey(ds.key + "._encode", "pad"), fn, "91 | USINT unpadded byte length | data | 00 iff length odd", "symbolic segment is not `type, USINT(unpadded length), data, pad iff odd`", **facts)
-    # port segment parity
-    ps = _seg(ctx, "PortSegment")
-    fn = ps.methods["_encode"]
-    good = False
-    for n in walk(fn):
-        if isinstance(n, ast.If) and isinstance(n.test, ast.BinOp) and isinstance(n.test.op, ast.Mod) and ctx.folder.eval(n.test.right, ps.module) == 2:
-            if isinstance(n.test.left, ast.Call) and call_name(n.test.left) == "len" and isinstance(n.body[0], ast.AugAssign) and atom_name(n.body[0].target) == atom_name(n.test.left.args[0]) and ctx.folder.eval(n.body[0].value, ps.module) == b"\x00":
-                rets = [r for r in walk(fn) if isinstance(r, ast.Return)]
-                good = len(rets) == 1 and atom_name(rets[0].value) == atom_name(n.body[0].target)
-    ctx.check(good, ckey(ps.key + "._encode", "pad"), fn, "port segment padded with 00 to an even total", "port segment is not padded to an even total length")
-    # EPATH.encode: word-count prefix (+ reserved byte), segment order and the padded / packed flag handed to every segment are
-    # decided by folding `encode` on witness segment lists for PADDED_EPATH and PACKED_EPATH (D9.11); an earlier form read the
-    # layout of the `b"".join(generator)` expression and alarmed when the parts were collected by a loop
-    from .driver import _segment_rule
+    """Pad parity: a logical segment pads iff the value is wider than a byte (padded form); a symbolic segment's length is the
+    unpadded character count and the characters are padded to even; a port segment is padded to an even total; an EPATH prefixes
+    the word count.  Decided by folding the segment encoders and the EPATH assembler on witness segments (D9.10, D9.11); an
+    earlier form read the shape of the `if len(..) % 2: x += b"\\x00"` statements and alarmed on conditional expressions and on
+    branches taken in the other order."""
+    from .driver import _bytes_and_symbol_rule, _segment_rule
 
     _segment_rule(ctx)
+    _bytes_and_symbol_rule(ctx)
 
 
 @rule(P, "D9.4", "T-SPEC", floor=12)
@@ -182,70 +132,15 @@ def d9_4(ctx):
     ctx.check(good, "pycomm3.const:MSG_ROUTER_PATH", cm.symbols["MSG_ROUTER_PATH"].node, "message router path = class 0x02, instance 1", f"MSG_ROUTER_PATH is {v!r}")
 
 
-@rule(P, "D9.5", "T-SIB", floor=6)
+@rule(P, "D9.5", "T-WITNESS", floor=6)
 def d9_5(ctx):
-    """tag_request_path / request_path: addressing condition, segment order, word-count prefix."""
-    fn = ctx.model.func(f"{PU}:tag_request_path")
-    f = fn.node
-    params = [a.arg for a in f.args.args]
-    tagp, infop, usep = params
-    cond = None
-    for n in walk(f):
-        if isinstance(n, ast.If) and any(isinstance(x, ast.Call) and call_name(x) == "LogicalSegment" for s in n.body for x in walk(s)) and any(isinstance(x, ast.Call) and call_name(x) == "DataSegment" for s in n.orelse for x in walk(s)):
-            cond = n
-    key = ckey(fn, "addressing")
-    if cond is None:
-        ctx.violation(key, f, "no branch choosing between symbol-instance addressing and symbolic addressing")
-    else:
-        vals = cond.test.values if isinstance(cond.test, ast.BoolOp) and isinstance(cond.test.op, ast.And) else [cond.test]
-        atoms = set()
-        for v in vals:
-            s = src(v).replace(" ", "").replace('"', "'")
-            atoms.add(s)
-        base_names = {atom_name(n.targets[0].elts[0]) for n in walk(f) if isinstance(n, ast.Assign) and isinstance(n.targets[0], ast.Tuple) and isinstance(n.targets[0].elts[-1], ast.Starred)}
-        base = next(iter(base_names), "base")
-        want = {usep, f"not{base}.startswith('Program:')", f"{infop}.get('instance_id')"}
-        ctx.check(atoms == want, key, cond, "instance addressing iff use_instance_ids and not Program-scoped and instance id known", f"addressing condition is `{src(cond.test)}`; expected the conjunction of {sorted(want)}", atoms=sorted(atoms))
-        # instance branch: class symbol object then instance id
-        segs = [x for s in cond.body for x in walk(s) if isinstance(x, ast.Call) and call_name(x) == "LogicalSegment"]
-        good = len(segs) == 2 and ctx.folder.eval(segs[0].args[0], fn.module) == b"\x6b" and ctx.folder.eval(segs[0].args[1], fn.module) == "class_id" and src(segs[1].args[0]).replace('"', "'") == f"{infop}['instance_id']" and ctx.folder.eval(segs[1].args[1], fn.module) == "instance_id"
-        ctx.check(good, ckey(fn, "instance-segments"), cond, "class 0x6B segment then instance-id segment", "symbol-instance addressing is not [class 0x6B, instance <instance_id>]")
-        dsegs = [x for s in cond.orelse for x in walk(s) if isinstance(x, ast.Call) and call_name(x) == "DataSegment"]
-        good = len(dsegs) == 1 and any(isinstance(n, ast.Assign) and isinstance(n.targets[0], ast.Tuple) and atom_name(n.targets[0].elts[0]) == atom_name(dsegs[0].args[0]) and isinstance(n.value, ast.Call) and call_name(n.value) == "_find_tag_index" and atom_name(n.value.args[0]) == base for n in walk(f))
-        ctx.check(good, ckey(fn, "symbolic-segment"), cond, "symbolic segment carries the base tag name without its index", "symbolic addressing does not use the base tag name returned by _find_tag_index(base)")
-    # index segments: member_id of int(idx) in order, for base and each attribute
-    comps = [n for n in walk(f) if isinstance(n, ast.ListComp) and isinstance(n.elt, ast.Call) and call_name(n.elt) == "LogicalSegment"]
-    good = len(comps) == 2
-    for c in comps:
-        e = c.elt
-        g = c.generators[0]
-        good = good and ctx.folder.eval(e.args[1], fn.module) == "member_id" and isinstance(e.args[0], ast.Call) and call_name(e.args[0]) == "int" and atom_name(e.args[0].args[0]) == atom_name(g.target) and atom_name(g.iter) == "index" and not g.ifs
-    ctx.check(good, ckey(fn, "index-segments"), f, "each index becomes a member_id segment of int(idx), in order", "array indexes are not emitted as member_id segments of int(idx) in order")
-    loops = [n for n in walk(f) if isinstance(n, ast.For) and atom_name(n.iter) == "attrs"]
-    good = False
-    if len(loops) == 1:
-        lp = loops[0]
-        ds = [x for x in walk(lp) if isinstance(x, ast.Call) and call_name(x) == "DataSegment"]
-        ext = [x for x in walk(lp) if isinstance(x, ast.AugAssign) and atom_name(x.target) == "segments"]
-        good = len(ds) == 1 and len(ext) == 1 and atom_name(ds[0].args[0]) == atom_name(lp.target)
-    ctx.check(good, ckey(fn, "member-segments"), f, "each member name becomes a symbolic segment followed by its indexes, appended in order", "structure member names are not appended as symbolic segments in order")
-    rets = [r for r in walk(f) if isinstance(r, ast.Return) and isinstance(r.value, ast.Call)]
-    good = len(rets) == 1 and attr_path(rets[0].value.func) == "PADDED_EPATH.encode" and atom_name(rets[0].value.args[0]) == "segments" and {k.arg: ctx.folder.eval(k.value, fn.module) for k in rets[0].value.keywords} == {"length": True}
-    ctx.check(good, ckey(fn, "encode"), f, "PADDED_EPATH.encode(segments, length=True)", "tag path is not encoded as a padded EPATH with its word-count prefix")
-    # request_path
-    rp = ctx.model.func(f"{PU}:request_path")
-    f = rp.node
-    p = [a.arg for a in f.args.args]
-    lst = [n for n in walk(f) if isinstance(n, ast.Assign) and isinstance(n.value, ast.List)]
-    good = False
-    if lst:
-        el = lst[0].value.elts
-        good = len(el) == 2 and all(isinstance(x, ast.Call) and call_name(x) == "LogicalSegment" for x in el) and atom_name(el[0].args[0]) == p[0] and ctx.folder.eval(el[0].args[1], rp.module) == "class_id" and atom_name(el[1].args[0]) == p[1] and ctx.folder.eval(el[1].args[1], rp.module) == "instance_id"
-        app = [n for n in walk(f) if isinstance(n, ast.If) and atom_name(n.test) == p[2]]
-        good = good and len(app) == 1 and any(isinstance(x, ast.Call) and call_name(x) == "LogicalSegment" and atom_name(x.args[0]) == p[2] and ctx.folder.eval(x.args[1], rp.module) == "attribute_id" for x in walk(app[0])) and lst[0].lineno < app[0].lineno
-        rets = [r for r in walk(f) if isinstance(r, ast.Return)]
-        good = good and len(rets) == 1 and isinstance(rets[0].value, ast.Call) and attr_path(rets[0].value.func) == "PADDED_EPATH.encode" and {k.arg: ctx.folder.eval(k.value, rp.module) for k in rets[0].value.keywords} == {"length": True}
-    ctx.check(good, ckey(rp, "order"), f, "class, instance, optional attribute; padded EPATH with word count", "request_path is not [class, instance, (attribute)] encoded with a word-count prefix")
+    """tag_request_path / request_path: addressing condition (symbol instance only when asked for, known and not
+    program-scoped), segment order (base, its indexes, each member and its indexes; class, instance, optional attribute),
+    word-count prefix.  Decided by folding both functions on witness tags and codes with the segment constructors and the path
+    encoder as markers (D1.13); an earlier form matched the list display and the `if attribute:` statement."""
+    from .packets import path_and_reply_witnesses
+
+    path_and_reply_witnesses(ctx, ("tag-path", "request-path"))
 
 
 @rule(P, "D9.6", "T-WITNESS", floor=3)
